@@ -23,12 +23,21 @@ func withSafeConcurrency(concurrency int) uint32 {
 	if concurrency < 1 {
 		return utils.Cpus()
 	}
+	// values that do not fit are clamped, not truncated (k*2^32 used to become limit 0)
+	if uint64(concurrency) > math.MaxUint32 {
+		return math.MaxUint32
+	}
 	return uint32(concurrency)
 }
 ```
+`uint64(concurrency)` keeps the 64 bits and reads them unsigned, so the second test is the unsigned
+`BitVec` comparison with `0xFFFFFFFF`. (Before the repair the function ended with the bare
+`uint32(concurrency)`, which truncates: every positive multiple of 2^32 became limit 0.)
 -/
 def withSafeConcurrency (cpus : BitVec 32) (c : BitVec 64) : BitVec 32 :=
-  if c.slt 1 then cpus else c.setWidth 32
+  if c.slt 1 then cpus
+  else if c > 0xFFFFFFFF#64 then 0xFFFFFFFF#32
+  else c.setWidth 32
 
 /--
 ```go
